@@ -88,7 +88,7 @@ impl<'de> Deserialize<'de> for Uplink {
                     .extend_from_slice(&pending_data[..pending_len as usize])
                     .map_err(|_| de::Error::custom("failed to create heapless::Vec"))?;
 
-                Ok(Uplink { pending, confirmed })
+                Ok(Uplink { pending, confirmed, truncated: false })
             }
         }
 
